@@ -81,6 +81,13 @@ def c06(tier):
     v = Verdict("C06", tier)
     vlib.build_harness()
     wd = workdir("C06")
+    # mechanism: with an unlimited budget (event_interval(u32::MAX)) an event always ends quiescent
+    for wakes in ("WakesFan", "WakesChain", "WakesTree"):
+        consts = f"NTasks = {5 if tier == 'quick' else 7} Budget = 0 Wakes <- {wakes}"
+        r = tlc("MC_Executor", f"CONSTANTS {consts}\nSPECIFICATION Spec\nINVARIANT QuiescentAtEventEnd\nCHECK_DEADLOCK FALSE\n", wd)
+        v.add_tlc(f"Executor model, unlimited budget, {wakes}", r, consts)
+        if r.violation:
+            v.spec_violation("Executor", r)
     sizes = [2, 10, 60, 61, 62, 100] if tier == "quick" else [2, 10, 60, 61, 62, 63, 100, 500, 2000]
     for n in sizes:
         family(v, wd, "C06", f"chain{n}", n, "ProgsChain", 6, mc=(n <= 10), what=f"wake chain of {n} tasks inside one instant", module="Gen_AsyncFam")
